@@ -749,3 +749,84 @@ Qed.
 Lemma top_graph_written fuel sch frags g : top_graph fuel sch frags = Some g ->
   forall n d, In d (succs g n) -> exists fd, find_frag d frags = Some fd.
 Proof. unfold top_graph. apply top_graph_written_gen. Qed.
+
+(* ================= fuel monotonicity: the answer does not depend on the fuel once it suffices ========== *)
+Lemma resolve_fuel_mono sch frags : forall f under ss root unp r,
+  resolve f sch frags under ss root unp = Some r ->
+  forall f', f <= f' -> resolve f' sch frags under ss root unp = Some r.
+Proof.
+  induction f as [|f IH]; intros under ss root unp r H f' Hle; [discriminate|].
+  destruct f' as [|f']; [lia|]. assert (Hle' : f <= f') by lia.
+  simpl in H |- *. destruct ss as [|s rest]; [exact H|].
+  match type of H with match ?r1 with _ => _ end = _ => destruct r1 as [[[f1 m1] u1]|] eqn:E1; [|discriminate] end.
+  destruct (resolve f sch frags under rest root u1) as [[[f2 m2] u2]|] eqn:E2; [|discriminate].
+  apply (fun h => IH _ _ _ _ _ h f' Hle') in E2.
+  assert (E1' : match s with
+                | SField _ _ _ _ => Some ([s], [], unp)
+                | SSpread fn c =>
+                    match find_frag fn frags with
+                    | None => None
+                    | Some fd =>
+                        if negb (under || c) && negb (unpack_fragment sch fd (Some root)) then Some ([], [fn], unp)
+                        else if String.eqb (fr_on fd) root || (is_abstract sch (fr_on fd) && is_sub_type sch (fr_on fd) root)
+                        then resolve f' sch frags (under || c) (fr_sel fd) root (unp ++ [fn])%list
+                        else Some ([], [], unp)
+                    end
+                | SInline tc c sub =>
+                    match inline_root sch tc root with
+                    | Some rt => resolve f' sch frags (under || c) sub rt unp
+                    | None => Some ([], [], unp)
+                    end
+                end = Some (f1, m1, u1)).
+  { destruct s as [al nm mx sub|fn c|tc c sub]; [exact E1| |].
+    - destruct (find_frag fn frags) as [fd|]; [|discriminate].
+      destruct (negb (under || c) && negb (unpack_fragment sch fd (Some root))); [exact E1|].
+      destruct (String.eqb (fr_on fd) root || (is_abstract sch (fr_on fd) && is_sub_type sch (fr_on fd) root));
+        [eapply IH; eassumption | exact E1].
+    - destruct (inline_root sch tc root); [eapply IH; eassumption | exact E1]. }
+  rewrite E1'. rewrite E2. exact H.
+Qed.
+
+Lemma resolve_fuel_agree sch frags f1 f2 under ss root unp r1 r2 :
+  resolve f1 sch frags under ss root unp = Some r1 -> resolve f2 sch frags under ss root unp = Some r2 -> r1 = r2.
+Proof.
+  intros H1 H2. pose proof (resolve_fuel_mono _ _ _ _ _ _ _ _ H1 (max f1 f2) (Nat.le_max_l _ _)) as A.
+  pose proof (resolve_fuel_mono _ _ _ _ _ _ _ _ H2 (max f1 f2) (Nat.le_max_r _ _)) as B. congruence.
+Qed.
+
+(* the entry of the base graph for a defined fragment (unique names) *)
+Lemma top_graph_entry fuel sch frags : forall l g,
+  all_some (map (fun fd => match resolve fuel sch frags false (fr_sel fd) (fr_on fd) [] with
+                           | Some (_, mix, _) => Some (fr_name fd, mix) | None => None end) l) = Some g ->
+  NoDup (map fr_name l) -> forall fd, In fd l ->
+  exists fs mix u, resolve fuel sch frags false (fr_sel fd) (fr_on fd) [] = Some (fs, mix, u) /\
+                   succs g (fr_name fd) = mix.
+Proof.
+  induction l as [|h l IHl]; intros g H Hnd fd Hin; [destruct Hin|]. simpl in H.
+  destruct (resolve fuel sch frags false (fr_sel h) (fr_on h) []) as [[[fs mix] u]|] eqn:E; [|discriminate].
+  destruct (all_some _) as [g0|] eqn:E0; [|discriminate]. inversion H; subst. inversion Hnd; subst.
+  destruct Hin as [->|Hin].
+  - exists fs, mix, u. split; [exact E|]. simpl. now rewrite String.eqb_refl.
+  - destruct (IHl g0 eq_refl H3 fd Hin) as [fs' [mix' [u' [E' Hs]]]]. exists fs', mix', u'. split; [exact E'|].
+    simpl. destruct (String.eqb (fr_name h) (fr_name fd)) eqn:Eq; [|exact Hs].
+    apply String.eqb_eq in Eq. exfalso. apply H2. rewrite Eq. apply in_map. exact Hin.
+Qed.
+
+(* the base graph handed to the class generator IS the hierarchy the module classes realise: the class generated
+   for a fragment resolves exactly succs g name as bases and lists exactly succs (rgraph g) name *)
+Theorem top_graph_realised fuel0 fuel sch frags g snake fd cs s' :
+  top_graph fuel0 sch frags = Some g -> NoDup (map fr_name frags) -> In fd frags ->
+  unpack_fragment sch fd None = false ->
+  gen_frag fuel sch frags g snake fd = Some (cs, s') ->
+  exists c rest, cs = c :: rest /\ c_name c = pascal_s (fr_name fd) /\
+    c_frags c = sort_uniq (succs g (fr_name fd)) /\
+    c_bfrags c = sort_uniq (succs (rgraph g) (fr_name fd)).
+Proof.
+  intros Hg Hnd Hin Hu H. unfold gen_frag in H. rewrite Hu in H.
+  destruct (ptd_head _ _ _ _ _ _ _ _ _ _ _ _ H eq_refl) as [f [fields [mix [unp' [rest [-> [E ->]]]]]]].
+  simpl in E. unfold top_graph in Hg.
+  destruct (top_graph_entry _ _ _ _ _ Hg Hnd fd Hin) as [fs [mix' [u [E' Hs]]]].
+  pose proof (resolve_fuel_agree _ _ _ _ _ _ _ _ _ _ E E') as Heq. inversion Heq; subst.
+  eexists; eexists. split; [reflexivity|]. simpl. split; [reflexivity|]. split; [reflexivity|].
+  rewrite succs_rgraph. reflexivity.
+Qed.
